@@ -14,6 +14,13 @@
 (*     length <= MaxLen over Alphabet and the tuples of <= MaxFields fields  *)
 (*     over Kinds; OneWord and EveryScalarOnceInOrder are invariants of it.  *)
 (*                                                                            *)
+(* Configurations: Shell_mc.cfg (generator, the property, REPLAY emission;   *)
+(* the driver runs it as MC_Shell with the seeded strings as Extra),         *)
+(* Shell_machine.cfg (the stepwise machine equals Parse, every action        *)
+(* taken), Shell_dev.cfg (recorded deviations on: the property must fail),   *)
+(* ShellTrace.tla/.cfg (the machine reads the text the REAL converters       *)
+(* wrote).                                                                    *)
+(*                                                                            *)
 (* A character is a TLA+ string used as an atom: "a", "'", "\n", or a token  *)
 (* such as "U+00E9" standing for one character outside printable ASCII.  The *)
 (* machine only ever asks whether a character is one of the listed special   *)
